@@ -10,6 +10,8 @@ Values
   ('t', (v, ...))     tuple / list display
   ('pre', name)       the value a local had on entry to the region (never assigned on this path)
   ('x', key)          opaque; sim.sym[key] describes it: ('expr', ast, [arg values]) / ('unpack', value, i) / ('iter', loop) ...
+  ('ne',)             a container that is known to be non-empty (a list display that was appended to); ('truthy',) / ('falsy',): an
+                      opaque local after the branch of a test on it was taken (the same test later on the path decides the same way)
 """
 import ast
 
@@ -92,6 +94,10 @@ class Sim:
             return True
         if v[0] == 't':
             return len(v[1]) > 0
+        if v[0] in ('ne', 'truthy'):
+            return True
+        if v[0] == 'falsy':
+            return False
         return None
 
     def truth(self, t, env):
@@ -120,12 +126,16 @@ class Sim:
             if any(v is True for v in vals):
                 return True
             return False if all(v is False for v in vals) else None
-        return self.truthy(self.ev(t, env))
+        r = self.truthy(self.ev(t, env))
+        if r is None and isinstance(t, ast.Name) and ('?' + t.id) in env:
+            return self.truthy(env['?' + t.id])
+        return r
 
     # ---- transfer
     def bind(self, target, v, env):
         if isinstance(target, ast.Name):
             env[target.id] = v
+            env.pop('?' + target.id, None)
         elif isinstance(target, (ast.Tuple, ast.List)):
             for i, t in enumerate(target.elts):
                 if v[0] == 't' and len(v[1]) == len(target.elts):
@@ -147,8 +157,17 @@ class Sim:
             elif isinstance(s, ast.AugAssign):
                 if isinstance(s.target, ast.Name):
                     env[s.target.id] = self.opaque((id(s), env.get(s.target.id)), ('aug', s))
+                    env.pop('?' + s.target.id, None)
             elif isinstance(s, ast.Expr):
-                self.ev(s.value, env)
+                c = s.value
+                if isinstance(c, ast.Call) and isinstance(c.func, ast.Attribute) and c.func.attr in ('append', 'add', 'insert', 'extend') and isinstance(c.func.value, ast.Name) \
+                        and env.get(c.func.value.id, ('?',))[0] in ('t', 'ne') and c.func.attr != 'extend':
+                    env[c.func.value.id] = ('ne',)          # grows by one element: non-empty from here on (its length is not tracked - loops stay finite)
+                elif isinstance(c, ast.Call) and isinstance(c.func, ast.Attribute) and isinstance(c.func.value, ast.Name) and env.get(c.func.value.id, ('?',))[0] in ('t', 'ne') \
+                        and c.func.attr in ('extend', 'pop', 'remove', 'clear', 'discard', 'update', 'sort', 'reverse'):
+                    env[c.func.value.id] = self.opaque((id(s), 'mutated'), ('mutated', s))
+                else:
+                    self.ev(s.value, env)
         elif n.kind == 'loop' and isinstance(s, ast.For):
             self.bind(s.target, self.opaque((id(s), 'iter'), ('iter', s)), env)
         elif n.kind == 'with':
@@ -157,6 +176,7 @@ class Sim:
                     self.bind(it.optional_vars, self.opaque((id(it), 'with'), ('with', it.context_expr)), env)
         elif n.kind == 'handler' and s.name:
             env[s.name] = self.opaque((id(s), 'exc'), ('exc', s))
+            env.pop('?' + s.name, None)
 
     @staticmethod
     def key(env):
@@ -198,6 +218,13 @@ class Sim:
                     continue
                 # an exception leaves the statement before its effect: the pre-state flows along 'exc'
                 e2 = dict(pre if l == 'exc' else env)
+                if n.kind == 'test' and l in ('T', 'F') and t is None:
+                    tn, pos = n.stmt, True
+                    if isinstance(tn, ast.UnaryOp) and isinstance(tn.op, ast.Not):
+                        tn, pos = tn.operand, False
+                    if isinstance(tn, ast.Name) and e2.get(tn.id, ('pre',))[0] in ('x', 'pre'):
+                        # the value keeps its provenance; the outcome of the test is remembered beside it until the name is rebound
+                        e2['?' + tn.id] = ('truthy',) if (l == 'T') == pos else ('falsy',)
                 if l == 'exc' and self.hook:
                     # events recorded by the hook for this node (keys '#...') did not happen either
                     pass
